@@ -359,6 +359,10 @@ class WebSocketApp:
             self._callback(self.on_close, close_status_code, close_reason)
 
         def setSock(reconnecting: bool = False) -> None:
+            if reconnecting and not self.keep_running:
+                # close() was called while waiting to reconnect: the run is over
+                return
+
             if reconnecting and self.sock:
                 self.sock.shutdown()
 
